@@ -68,7 +68,11 @@ enum BuildError { Canceled, ReceiverError(RecvError), SenderError(SendError<Pack
 
 trait System : Sized {}
 
-impl Blob { #[verifier::external_body] fn empty() -> (r: Blob) ensures r.file_infos@.len() == 0 { unimplemented!() } }
+impl Blob {
+    #[verifier::external_body] fn empty() -> (r: Blob) ensures r.file_infos@.len() == 0 { unimplemented!() }
+    // ASSUMED (R8): the derived Clone of Vec<FileInfo> copies
+    #[verifier::external_body] fn get_file_infos(self : &Self) -> (r: Vec<FileInfo>) ensures r@ == self.file_infos@ { unimplemented!() }
+}
 impl<SystemType: System> HandleNodeInfo<SystemType> {
 //@ extract work.rs impl /HandleNodeInfo<SystemType>$/ fn new
 //@ props C05
